@@ -44,8 +44,9 @@ def oracle(code, a):
         return float(sps.jv(a[0], a[1]))
     if code == 3:
         return float(sps.hyp2f1(a[0], a[1], a[2], a[3]))
-    if code == 9:
-        return float(sps.gammainc(a[0], a[1]))
+    if code == 9:                      # gstools.tools.special.inc_gamma_low (the translator's meaning of ORA_INCGAMMA_LOW)
+        from gstools.tools.special import inc_gamma_low
+        return float(inc_gamma_low(a[0], a[1]))
     raise ValueError("oracle code %d" % code)
 
 
@@ -288,8 +289,9 @@ def run(ctx, only=None):
                 "point-set kind / transformation) keys")
     ctx.trusted = [
         "Coq 8.16.1 kernel; stdlib Reals axioms + Classical_Prop.classic (Coquelicot RInt) as printed per theorem",
-        "sign facts assumed of scipy's special functions (explicit theorem hypotheses): gamma(x) > 0 for x > 0; gammainc(s, x) >= 0 for s > 0, x >= 0; "
+        "sign facts assumed of scipy's special functions (explicit theorem hypotheses): gamma(x) > 0 for x > 0; gstools inc_gamma_low(s, x) >= 0 for s > 0, x >= 0; "
         "hyp2f1(a, b, c, x) >= 0 for a, b, c > 0 and 0 <= x < 1.  J_nu enters squared: nothing assumed.",
+        "translator tools/py2coq.py (formula subset semantics) for the Coq-checked ties C02_tie_*",
         "hand model c02/C02_Model.v tied by executing the extraction (ExtrOcamlBasic, OCaml floats, scipy oracle co-process) "
         "against /repo on this run",
         "numpy.linalg.eigvalsh, scipy.integrate.quad + scipy.special.jv (own radial transform of the compact models)",
@@ -305,9 +307,14 @@ def run(ctx, only=None):
         "|rho| <= 1 for the special-function correlations (Matern, Integral, HyperSpherical, SuperSpherical, JBessel, TPL*): probed",
         "floating point: theorems are over R; rounding enters through the eigenvalue tolerance -1e-8 n var",
     ]
-    ctx.tie["opt_bounds/opt_default/check_dim/arg_error"] = "hand model + correspondence (every class x dim, warnings captured)"
-    ctx.tie["cor (9 elementary classes)"] = "hand model + correspondence"
-    ctx.tie["spectral_density (8 analytic classes)"] = "hand model + correspondence (scipy functions shared through the oracle)"
+    ctx.tie["opt_bounds/opt_default/check_dim/arg_error"] = "hand model + correspondence only (dict-valued / warning-raising code is not translatable): every class x dim, warnings captured"
+    ctx.tie["cor of Gaussian Exponential Stable Rational Cubic Linear Circular Spherical TPLSimple"] = (
+        "translated (py2coq -> gen/Formulas_gen.v on this run) and proved equal to the hand model for every number type "
+        "(C02_tie_*_cor); the hand model is additionally executed against /repo")
+    ctx.tie["spectral_density of Gaussian Exponential Matern Integral HyperSpherical JBessel, tpl_exp_spec_dens, tpl_gau_spec_dens, "
+            "TPLExponential/TPLGaussian.spectral_density"] = (
+        "translated and proved equal to the hand model for every number type (C02_tie_*_spectral_density, C02_tie_tpl_*); "
+        "hand model additionally executed against /repo (scipy / gstools special functions shared through the oracle)")
 
     import time
     t0 = time.time()
